@@ -2,7 +2,7 @@
    Only statements here; proofs are in FaultProofs.v, ContainProofs.v, Invariant.v. *)
 From Coq Require Import List ZArith NArith Bool Permutation.
 From Scalibr Require Import Walk.Model Walk.Spec Walk.Sched Walk.Trace Walk.C01Proofs Walk.Invariant Walk.Faults
-  Walk.FaultProofs Walk.ContainProofs Walk.PathsProofs Walk.Witness Walk.Cases.
+  Walk.FaultProofs Walk.ContainProofs Walk.PathsProofs Walk.MultiFaultProofs Walk.Witness Walk.Cases.
 Import ListNotations.
 
 (* ErrorOnFSErrors = false: whatever fails -- any number of faults at any operation site of any tree: root stat,
@@ -44,6 +44,32 @@ Theorem faults_contained_paths : forall c t ps,
                      end) ps.
 Proof. exact faults_contained_paths_lemma. Qed.
 Print Assumptions faults_contained_paths.
+
+(* several roots: the Run completes and its Extract calls are, root by root, those of the fault-free scan of that root
+   whose path is not lost to a fault of THAT root: a fault in one root never changes what another root yields *)
+Theorem multiroot_faults_contained : forall c roots,
+  c_fatal c = false -> no_limits c = true -> no_xpanic c -> c_paths c = [] ->
+  forallb (fun t => tree_quiet c t && gi_readable c t && wf_tree t) roots = true ->
+  exists inv sts st,
+    run c roots = ROk inv sts st /\
+    (c_exts c <> [] ->
+     calls (s_events st) =
+     flat_map (fun t => filter (fun ep => not_lost c t (snd ep)) (fs_calls c (erase_faults t))) roots).
+Proof. exact multiroot_faults_contained_lemma. Qed.
+Print Assumptions multiroot_faults_contained.
+
+(* ... and for ANY roots, faults, limits and options: every open / stat / extract failure in any root is an item of
+   the owning plugin's status, a non-succeeded status has such a cause, and Run reports the statuses and inventory
+   of the shared walk context (the union over the roots) *)
+Theorem multiroot_faults_surface : forall c roots inv sts st e,
+  run c roots = ROk inv sts st ->
+  (forall ev item, In ev (s_events st) -> In (e, item) (err_of_event c ev) ->
+     exists errs, In item errs /\
+       (status_of st e = if existsb (ln_eqb e) (s_found st) then StPartial errs else StFailed errs)) /\
+  (status_of st e <> StSucceeded -> exists ev item, In ev (s_events st) /\ In (e, item) (err_of_event c ev)) /\
+  (c_exts c <> [] -> roots <> [] -> sts = statuses c st /\ inv = s_inv st).
+Proof. exact multiroot_faults_surface_lemma. Qed.
+Print Assumptions multiroot_faults_surface.
 
 (* every failure to open, stat or parse a file is reflected in the owning extractor's status (failed, or
    partially succeeded iff it produced packages elsewhere), and a non-succeeded status has such a cause *)
